@@ -2,7 +2,7 @@
 Model of the DECISION LOGIC by which neutrino.go enforces bans (no sockets, no
 goroutines): `OnVersion`'s service-bit test, `outboundPeerConnected`,
 `handleAddPeerMsg`, `BanPeer` (with its deferred disconnect of
-`PeerByAddr(addr)`), `IsBanned`, on top of the store model of Model/Ban.lean.
+`PeerByAddr(addr)` and of every connected peer of the banned network), `IsBanned`, on top of the store model of Model/Ban.lean.
 Core Lean only.
 
 A peer is its address string, i.e. (IP bytes as `net.ParseIP` yields them, port);
@@ -55,11 +55,30 @@ def isBanned (s : State) (now : Int) (p : Peer) : State × Bool :=
   | (s', .banned _ _) => (s', true)
   | (s', _) => (s', false)
 
+/-- `peerNet.String() == banned.String()` on two `*net.IPNet`s: `IP.String()`
+prints the 4-byte and the v4-mapped 16-byte form of an address alike, i.e. it
+compares the 16-byte forms; the masks are compared as given. -/
+def sameNet (a b : Bytes × Bytes) : Bool :=
+  (to16 a.1).isSome && to16 a.1 == to16 b.1 && a.2 == b.2
+
+/-- the peers `BanPeer`'s goroutine leaves connected: not the reported address
+(`PeerByAddr(addr)`), and — when `ParseIPNet(addr, nil)` succeeds — no peer whose
+own address parses to the banned network -/
+def afterBan (connected : List Peer) (p : Peer) : List Peer :=
+  match resolve p.target with
+  | none => without connected p
+  | some bn =>
+    (without connected p).filter fun q =>
+      match resolve q.target with
+      | none => true
+      | some qn => !sameNet qn bn
+
 /-- `ChainService.BanPeer`: ban the IP network for `BanDuration` (an error is
-only logged) and disconnect `PeerByAddr(addr)`. -/
+only logged), disconnect `PeerByAddr(addr)` and every peer in `s.Peers()` whose
+address lies in the banned network. -/
 def banPeer (n : Net) (now : Int) (p : Peer) (reason : Nat) : Net :=
   { n with store := (step n.store now (.ban p.target reason banDurationMs)).1,
-           connected := without n.connected p }
+           connected := afterBan n.connected p }
 
 inductive Ev where
   | outbound (p : Peer)                   -- outboundPeerConnected(c, conn)
